@@ -278,6 +278,11 @@ class Ranges:
                 if all(r.values is not None for r in parts):
                     vals = frozenset().union(*[r.values for r in parts])
                 return Rng(f(r.lo for r in parts), f(r.hi for r in parts), all(r.integer for r in parts), vals)
+        if name in ('lt', 'le', 'gt', 'ge', 'eq', 'ne', 'not', 'logical_and', 'logical_or', 'logical_not', 'logical_xor',
+                    'isfinite', 'isnan', 'isinf', 'isclose', 'greater', 'less', 'greater_equal', 'less_equal', 'equal',
+                    'not_equal', 'and', 'or') and (name not in ('and', 'or') or all(
+                        isinstance(x, Poly) and self.of(x).binary for x in args)):
+            return Rng(0, 1, True, frozenset({0, 1}))       # a truth value (an array of them): 0 or 1 once cast to a number
         self.unknown.append(f'{name}(...)')
         return TOP
 
